@@ -163,17 +163,38 @@ func main() {
 				rel := filepath.Join("gen", setName, fl, f.Base)
 				goPkg := "verif/corp/" + filepath.ToSlash(rel)
 				protoPath := filepath.ToSlash(filepath.Join(rel, f.Base+".proto"))
+				var localDep *descriptorpb.FileDescriptorProto
+				if contains(f.Features, "local-import") {
+					depRel := filepath.ToSlash(filepath.Join(rel, "api", "v1"))
+					depPath := depRel + "/money.proto"
+					localDep = &descriptorpb.FileDescriptorProto{
+						Name: proto.String(depPath), Package: proto.String(f.LocalDepPkg()), Syntax: proto.String("proto3"),
+						Options: &descriptorpb.FileOptions{GoPackage: proto.String("verif/corp/" + depRel + ";apiv1")},
+						MessageType: []*descriptorpb.DescriptorProto{{Name: proto.String("Money"), Field: []*descriptorpb.FieldDescriptorProto{
+							{Name: proto.String("currency"), Number: proto.Int32(1), Type: descriptorpb.FieldDescriptorProto_TYPE_STRING.Enum(), Label: descriptorpb.FieldDescriptorProto_LABEL_OPTIONAL.Enum(), JsonName: proto.String("currency")},
+							{Name: proto.String("units"), Number: proto.Int32(2), Type: descriptorpb.FieldDescriptorProto_TYPE_INT64.Enum(), Label: descriptorpb.FieldDescriptorProto_LABEL_OPTIONAL.Enum(), JsonName: proto.String("units")}}}},
+						EnumType: []*descriptorpb.EnumDescriptorProto{{Name: proto.String("Currency"), Value: []*descriptorpb.EnumValueDescriptorProto{
+							{Name: proto.String("CUR_NONE"), Number: proto.Int32(0)}, {Name: proto.String("CUR_EUR"), Number: proto.Int32(1)}}}},
+					}
+					f.Deps = append(append([]string{}, f.Deps...), depPath)
+				}
 				fd := f.Descriptor(protoPath, goPkg)
 				e := entry{Base: f.Base, Flavour: fl, Set: setName, Syntax: f.Syntax, Features: f.Features, GoPkg: goPkg, Dir: rel}
 				collectMsgs("."+f.Pkg, "", f.Msgs, &e.Messages)
 				var protos []*descriptorpb.FileDescriptorProto
 				for _, d := range f.Deps {
+					if localDep != nil && d == localDep.GetName() {
+						continue
+					}
 					w, ok := wktFiles[d]
 					if !ok {
 						fmt.Fprintln(os.Stderr, "unknown dependency", d)
 						os.Exit(2)
 					}
 					protos = append(protos, protodesc.ToFileDescriptorProto(w))
+				}
+				if localDep != nil {
+					protos = append(protos, localDep)
 				}
 				protos = append(protos, fd)
 				// sanity: the descriptor must be valid (a corpus bug otherwise)
@@ -185,6 +206,25 @@ func main() {
 				rtBin, api := "protoc-gen-go", "v2"
 				if fl == "gogo" || fl == "gv1" {
 					rtBin, api = "protoc-gen-gogo", "v1"
+				}
+				if localDep != nil {
+					// the dependency gets the runtime's own generated code only (its own request: one Go package per request)
+					depReq := &pluginpb.CodeGeneratorRequest{FileToGenerate: []string{localDep.GetName()}, Parameter: proto.String("paths=source_relative"),
+						ProtoFile: []*descriptorpb.FileDescriptorProto{localDep}, CompilerVersion: &pluginpb.Version{Major: proto.Int32(5), Minor: proto.Int32(28), Patch: proto.Int32(3)}}
+					dresp, derrs := runPlugin(filepath.Join(*plugins, rtBin), depReq, *out, nil)
+					if derrs != "" {
+						e.RtErr = derrs
+						entries = append(entries, e)
+						continue
+					}
+					for _, gf := range dresp.File {
+						content := gf.GetContent()
+						if fl == "gv1" {
+							content = strings.ReplaceAll(content, `proto "github.com/gogo/protobuf/proto"`, `proto "github.com/golang/protobuf/proto"`)
+							content = strings.ReplaceAll(content, "proto.GoGoProtoPackageIsVersion3", "proto.ProtoPackageIsVersion3")
+						}
+						writeFile(filepath.Join(*out, gf.GetName()), content)
+					}
 				}
 				rtReq := &pluginpb.CodeGeneratorRequest{FileToGenerate: []string{protoPath}, Parameter: proto.String("paths=source_relative"), ProtoFile: protos,
 					CompilerVersion: &pluginpb.Version{Major: proto.Int32(5), Minor: proto.Int32(28), Patch: proto.Int32(3)}}
